@@ -112,6 +112,11 @@ def run(ctx, chk, tier):
             chk.hold("R09.2", "property:" + name, "%s = %s on %d path(s)" % (name, show(spec, 120), len(outs)))
     inverse_maps(ctx, chk)
     chk.floor("R09.2", 13 + 24, "13 properties + 24 inverse maps")
+    # R09.3: AUC with easy samples = AUC of the materialised object: the AUC formula and its Mann-Whitney / step-area value on
+    # representatives with easy counts (C07 rules)
+    from . import c07
+    c07.structural(ctx, chk)
+    c07.numeric(ctx, chk, tier)
 
 
 def inverse_maps(ctx, chk, metrics=METRICS):
